@@ -35,7 +35,9 @@ BASE = {
     "output": [{"o": "<% ctx().p %>"}],
 }
 FORMS = ["<% ctx().zz %>", "<% ctx(zz) %>", "<% ctx('zz') %>", '<% ctx("zz") %>', "{{ ctx().zz }}", "{{ ctx('zz') }}", '{{ ctx("zz") }}',
-         "<% ctx().a + ctx().zz %>", "pre <% ctx().zz %> post"]
+         "<% ctx().a + ctx().zz %>", "pre <% ctx().zz %> post",
+         # YAQL equality written without spaces: the text `zz=1` has the shape of an inline parameter (F22)
+         "<% ctx().zz=1 %>"]
 BROKEN = ["<% 1 +/ 2 %>", "{{ 1 +/ 2 }}", "<% ctx().a. %>", "{{ ctx().a. }}"]
 
 
@@ -112,13 +114,25 @@ def converse(ch, ctx, kind, twin=False):
         if not r.get("expressions") and not r.get("syntax"):
             fail("grammar-not-reported", "inspection accepts the malformed expression %r at %s: %s" % (expr, ".".join(map(str, path)), r), d, site=".".join(map(str, path)))
     elif kind == "undefined-task":
-        which = ch.pick("which", 3)
+        which = ch.pick("which", 8)
         if which == 0:
             d["tasks"]["t1"]["next"][0]["do"] = ["t2", "nowhere"]
         elif which == 1:
             d["tasks"]["t2"]["next"][0]["do"] = "t3, nowhere"
-        else:
+        elif which == 2:
             d["tasks"]["t3"]["next"] = [{"when": "<% failed() %>", "do": "nowhere"}]
+        elif which in (3, 4, 5, 6):
+            # the undefined name is listed after an engine command in the same do list
+            cmd = ["fail", "noop", "continue", "retry"][which - 3]
+            if ch.flag("list"):
+                d["tasks"]["t1"]["next"].append({"when": "<% failed() %>", "do": [cmd, "nowhere"]})
+            else:
+                d["tasks"]["t1"]["next"].append({"when": "<% failed() %>", "do": cmd + ", nowhere"})
+        else:
+            # the undefined name sits behind a task that is itself listed after an engine command
+            d["tasks"]["t1"]["next"].append({"when": "<% failed() %>", "do": ["fail", "t3"]})
+            d["tasks"]["t2"].pop("next")
+            d["tasks"]["t3"]["next"] = [{"do": "nowhere"}]
         r = native_specs.WorkflowSpec(d).inspect()
         if not any("nowhere" in e.get("message", "") for e in r.get("semantics", [])):
             fail("undefined-task-not-reported", "inspection accepts a reachable transition to the undefined task 'nowhere': %s" % r, d, which=which)
